@@ -386,6 +386,7 @@ def sc_wrappers(cfg):
 
     def scenario(C):
         Inner.fail = C.bool("fail_inner")
+        kwargs = {}
         X = numpy.arange(6.0).reshape(-1, 1) + 1
         y = numpy.array([1.0, 2.0, 4.0, 3.0, 5.0, 6.0])
         yc = numpy.array([0, 1, 0, 1, 0, 1])
@@ -421,9 +422,11 @@ def sc_wrappers(cfg):
         import contextlib
 
         default_stub = harness.patched(tp, LinearRegression=Inner) if which == "ttr_default" else contextlib.nullcontext()
+        if which in ("ttr", "ttc", "ttr_default") and bool(C.bool("with_sample_weight")):
+            kwargs = dict(sample_weight=numpy.arange(6.0) + 1)
         try:
             with default_stub:
-                r = est.fit(*args, **(kwargs if which == "kml1" else {}))
+                r = est.fit(*args, **kwargs)
             C.true(r is est, "fit-returns-self")
             ok = True
         except Fault:
